@@ -635,7 +635,7 @@ PM_DELEGATES = {
 }
 
 
-def check_complete_writes(ctx, fb):
+def check_complete_writes(ctx, fb, flags=True):
     """R06-8: a write that reports success has happened, whatever the value: every path of an in-memory set / set_range that can return Ok
     stores the leaf (or leaves), recomputes the parents, raises the high-water mark and marks the position(s); a shortcut for
     'unchanged' values skips the mark, so writing the default value to a fresh position would not count as a write"""
@@ -673,8 +673,9 @@ def check_complete_writes(ctx, fb):
                 hw = [e for e in p.trace if e[0] == "write" and e[2] == (("f", "next_index"),)]
                 fl = [e for e in p.trace if e[0] == "write" and e[2] and e[2][0] == ("f", treefx.FLAGS)]
                 if m == "set":
-                    if not (stores and rec and hw and fl):
-                        why = "a success path of set skips %s" % ", ".join(k for k, v in (("the leaf store", stores), ("the parent recomputation", rec), ("the high-water update", hw), ("the flag", fl)) if not v)
+                    # `flags=False`: a property that does not speak about the empty-position list shares the rule without that clause
+                    if not (stores and rec and hw and (fl or not flags)):
+                        why = "a success path of set skips %s" % ", ".join(k for k, v in (("the leaf store", stores), ("the parent recomputation", rec), ("the high-water update", hw), ("the flag", fl or not flags)) if not v)
                 else:
                     # range write: leaves and flags are written in loops (possibly zero iterations for an empty range); the mark and the
                     # recomputation are unconditional
